@@ -448,6 +448,9 @@ def scramble(data: bytes, spans, rng, mode="random") -> bytes:
         if kind in DONTCARE:
             if mode == "ff":
                 b[s:e] = b"\xff" * (e - s)
+            elif mode == "smallint":   # looks like a meaningful little-endian count / index
+                word = struct.pack("<i", rng.choice([1, 2, 3, 5, 7, 10, 31, 100]))
+                b[s:e] = (word * ((e - s) // 4 + 1))[: e - s]
             elif mode == "text":  # looks like a longer, printable string continuing after the NUL
                 b[s:e] = bytes(rng.choice(b"ABCDEFGHIJKLMNOPQRSTUVWXYZabcdefghijklmnopqrstuvwxyz0123456789 ")
                                for _ in range(e - s))
